@@ -13,6 +13,7 @@
 import TypedpyModel.Drive.Wire
 import TypedpyModel.Spec.ConvertSpec
 import TypedpyModel.Sem.ConvertDeser
+import TypedpyModel.Drive.ConvertHeap
 namespace Typedpy.Drive.Convert
 open Lean (Json)
 open Typedpy.Convert hiding Json
@@ -157,6 +158,27 @@ def run (j : Json) : Except String Json := do
           pure [("deserPlainModel", Typedpy.Wire.resToJson (Typedpy.ConvertDeser.deserializePlain O opts pc d'))]
         | _, _ => pure []
       pure ([("deserWhole", w)] ++ plain)
+  -- the heap-level model (Sem/AliasC17.lean) with the copy sites of the source under test, against the value-level model
+  let fnScalars : List J ← match fns with
+    | .obj kvs => kvs.toList.foldlM (fun (acc : List J) (p : String × Json) => do
+        let rows ← p.2.getArr?
+        let rs ← rows.toList.mapM fun row => do
+          let q ← row.getArr?
+          match (← outcomeOfJson q[1]!) with
+          | .ok r => pure (Typedpy.Drive.ConvertHeap.scalarsOf r)
+          | .error _ => pure []
+        pure (acc ++ rs.flatten)) []
+    | _ => pure []
+  let heap : List (String × Json) := match Typedpy.Drive.ConvertHeap.run Typedpy.AliasC17.Gen.sites doc ms fnScalars with
+    | none => []
+    | some r =>
+      let agrees := match full, r.result with
+        | .ok d, some d' => pyEq d d'
+        | .error _, none => true
+        | _, _ => false
+      [("heap", Json.mkObj [("raised", .bool r.raised), ("agrees", .bool agrees), ("inputIntact", .bool r.inputIntact),
+          ("shared", Json.arr (r.shared.map fun path => Lean.Json.str (".".intercalate path)).toArray),
+          ("result", match r.result with | some d => docToJson d | none => .null)])]
   let kw ← match Typedpy.Wire.optField j "kw" with
     | none => pure []
     | some x => do match (← docOfJson x) with | .obj kvs => pure kvs | _ => throw "kw"
@@ -180,7 +202,7 @@ def run (j : Json) : Except String Json := do
     ("wf", .bool (wfHistory ms)), ("wfMappings", .bool (ms.all wfMapping)), ("inDomain", .bool (inDomain ms doc)),
     ("docVersion", optInt (docVersion doc)), ("effVersion", optInt (effectiveVersion doc)),
     ("hasVersionKey", .bool (hasVersionKey doc)),
-    ("deserIn", resToJson deserIn), ("deserExtras", resToJson extras), ("initVersion", optInt initV), ("upgradeAgrees", optBool upg)] ++ whole
+    ("deserIn", resToJson deserIn), ("deserExtras", resToJson extras), ("initVersion", optInt initV), ("upgradeAgrees", optBool upg)] ++ whole ++ heap
   -- laws evaluated on what the real code returned (documents arrive with sorted keys)
   let laws ← match Typedpy.Wire.optField j "impl" with
     | none => pure []
